@@ -182,7 +182,21 @@ var verifJSONOps = []TokenType{TokenPlus, TokenMinus, TokenMult, TokenDiv, Token
 func VerifC13LambdaJSON(v *vrt.T) {
 	verifJSONDocs = nil
 	var expr Node
-	switch v.Choose("shape", 6) {
+	switch v.Choose("shape", 7) {
+	case 6:
+		// lambdas as the parser builds them (raw literal forms kept in the nodes)
+		texts := []string{
+			`"path" =~ /^\/var\/log\//`,
+			`"path" !~ /a\\/b/ AND "x" > 0755`,
+			`"msg" == 'it\'s' OR "d" > 36h`,
+			`sigma("value") > 3.5 AND "host" =~ /a+/`,
+		}
+		ln, err := ParseLambda(texts[v.Choose("text", len(texts))])
+		v.Assert(err == nil, "the lambda parses")
+		if err != nil {
+			return
+		}
+		expr = ln.Expression
 	case 0:
 		expr = verifJSONLeafNode(v)
 	case 1:
